@@ -45,6 +45,11 @@ def gen_world_desc(rng, nlooms=(1, 2), ncpus=(1, 4), nprocs=(1, 2), nthreads=(1,
         for r, i in enumerate(order):
             allprocs[i]["rank"] = r
             allprocs[i]["nranks"] = len(allprocs)
+        if nl > 1 and rng.chance(30):
+            # rank information only in some looms: the documented order falls back to loom names
+            for l in rng.sample(looms, rng.randint(1, nl - 1)):
+                for p in l["procs"]:
+                    p["rank"] = p["nranks"] = None
     if skews and nl > 1:
         # one clock per host (looms whose names share the part before the first dot share the host)
         hosts = sorted({n.split(".")[0] for n in names})
